@@ -112,12 +112,14 @@ def build_fc(shim=False):
     return out
 
 
-def run_native(binary, files, env=None):
+def run_native(binary, files, env=None, stale=False):
     d = tempfile.mkdtemp(prefix="c05run_", dir=scratch())
     names = []
     for f in files:
         shutil.copy(f, d)
         names.append(os.path.basename(f))
+        if stale and f.endswith(".fo"):
+            open(os.path.join(d, "gen_" + os.path.basename(f)[:-3] + ".go"), "w").write("// stale output of an earlier run\n" * 512)
     e = dict(os.environ)
     if env:
         e.update(env)
@@ -137,6 +139,11 @@ def native_confirm(files, runs=300):
     seen = {}
     b = build_fc()
     if b:
+        # an output of an earlier run already present must not matter either
+        seen.setdefault(run_native(b, files), "fresh directory")
+        seen.setdefault(run_native(b, files, stale=True), "longer outputs of an earlier run present")
+        if len(seen) > 1:
+            return seen
         for _ in range(runs):
             seen.setdefault(run_native(b, files), "go map order (run repeated)")
             if len(seen) > 1:
@@ -169,6 +176,7 @@ def run(tier, replay=None):
                  "site_lemmas": "scLookupRecFac (2..3 records with symbolic 2-byte names, both field orders, both literal orders), eqsUnion + rsRegisterNewEI (4 symbolic variable names), exhaustiveness accept/reject: all 6 enumeration orders inside one path",
                  "templates": [os.path.basename(t[-1]) for t in templates(tier)]}
     ck.assumptions = ["the only sources of nondeterminism of fc are range-over-map instructions (all inside dict.Keys/Values/KVs today); the engine makes each one's order a choice",
+                      "besides its input files a run can see outputs of an earlier run at its destinations: one run per template starts with longer gen files in place",
                       "violation = two orders with different (exit status, output files); differing diagnostics on stdout are recorded but not violations",
                       "native confirmation: the real binary run repeatedly under Go's random map order, then a build whose dict.Keys/Values/KVs enumerate in sorted / reverse-sorted / rotated key order"]
     if replay:
@@ -215,12 +223,14 @@ def run(tier, replay=None):
         for mode in ("reverse", "rotate"):
             collect(run_symgo(mod, hp, "main", "^Harness_C05_Template$", steps=20000000, env=env, oracle="maporder",
                               extra=["-maporder-mode", mode], timeout=120))
+        # fresh directory vs. outputs of an earlier run already present
+        collect(run_symgo(mod, hp, "main", "^Harness_C05_Template$", steps=20000000, env=dict(env, VERIF_STALE="1"), timeout=120))
         ck.extra.setdefault("templates", []).append({"template": name, "map_iteration_events": total,
                                                      "distinct_results": len(digests), "distinct_stdout": len(std)})
         if len(std) > 1:
             stdout_diffs.append(name)
         if len(digests) > 1:
-            key = "C05:%s:output files depend on map iteration order" % name
+            key = "C05:%s:output files depend on map iteration order" % name  # (or on files of an earlier run: see native_detail)
             path = os.path.join(ck.replay_dir(), name + ".json")
             ds = sorted(digests)
             json.dump({"property": "C05", "template": name, "files": files,
